@@ -11,6 +11,25 @@ from . import core
 BUDGET = {"quick": dict(api_ms=3000, cli_s=6), "thorough": dict(api_ms=30000, cli_s=60)}
 
 
+import threading
+
+
+def safe_check(solver, timeout_ms):
+    """solver.check() under the solver's own time-out *and* a watchdog that interrupts the context when the
+    time-out is ignored (z3's sequence solver sometimes does not honour it)"""
+    solver.set("timeout", int(timeout_ms))
+    ctx = solver.ctx
+    timer = threading.Timer(timeout_ms / 1000.0 * 2 + 0.5, ctx.interrupt)
+    timer.daemon = True
+    timer.start()
+    try:
+        return solver.check()
+    except z3.Z3Exception:
+        return z3.unknown
+    finally:
+        timer.cancel()
+
+
 def _mentions(term, name):
     seen = set()
     stack = [term]
@@ -199,7 +218,7 @@ def _check_vc(pc, goal, tier="quick", want_model=True, extra=(), hints=None):
         res = _cli(text, b["cli_s"], skip=("cvc5-cli",), want_model=True)
         res["time"] = time.time() - t0
         return res
-    r = s.check()
+    r = safe_check(s, b["api_ms"])
     dt = time.time() - t0
     if r == z3.unsat:
         return {"status": "unsat", "backend": "z3-api-%s" % z3.get_version_string(), "time": dt}
@@ -259,7 +278,16 @@ def _cli(text, timeout_s, only=None, skip=(), want_model=False):
 
 
 def is_sat(pc, timeout_ms=3000):
+    """satisfiability of a conjunction (vacuity guards).  With strings only through the CLIs (the z3 API does not
+    reliably honour its time-out on sequence constraints)."""
     s = z3.Solver()
     s.set("timeout", timeout_ms)
     s.add(*pc)
-    return str(s.check())
+    if pc and _uses_strings(z3.And(*pc)):
+        try:
+            text = "(set-logic ALL)\n" + s.to_smt2()
+        except Exception:
+            return "unknown"
+        r = _cli(text, max(1, timeout_ms // 1000), only=("cvc5-cli",))
+        return r["status"]
+    return str(safe_check(s, timeout_ms))
